@@ -8,6 +8,18 @@ def showBS : Option BS → String
   | none => "N"
   | some s => s!"{s.index},{s.chunk},{s.instances},{s.end_},{s.realChunk}"
 
+/-- `level <n> <chunk>`: the `(counter, to-counter)` requests of one rejected-throughout level (`BS.level`), and whether
+    their expansion is exactly 1..n (`C15.level_tiles`, evaluated) -/
+def handleLevel (args : List String) : String :=
+  match args with
+  | [n, c] =>
+    let n := nat! n
+    let s : BS := ⟨0, nat! c, n⟩
+    let l := s.level n
+    let ok := l.flatMap BS.expand == List.range' 1 n
+    s!"{" ".intercalate (l.map fun (a, b) => s!"{a}-{b}")} {if ok then "tiles" else "does-not-tile"}"
+  | _ => "bad-op"
+
 /-- `bin <n> op…` with op = `a` (advance) | `s<k>` (advance_on_success k); prints the cursor after create and after every op -/
 def handleBin (args : List String) : String :=
   match args with
